@@ -23,8 +23,9 @@ from pathlib import Path
 VERIF = Path(__file__).resolve().parents[2]
 REPO = Path(os.environ.get('VERIF_REPO', '/repo'))
 SPECS = VERIF / 'specs'
-EVIDENCE = VERIF / 'evidence'
-VIOL_DIR = VERIF / 'cases' / 'violations'
+# seeded-change evaluation runs (tools/seed_eval.py) redirect their output so that the committed evidence is not overwritten
+EVIDENCE = Path(os.environ.get('VERIF_EVIDENCE_DIR', VERIF / 'evidence'))
+VIOL_DIR = Path(os.environ.get('VERIF_VIOL_DIR', VERIF / 'cases' / 'violations'))
 KNOWN_FILE = VERIF / 'known_findings.json'
 
 
